@@ -557,8 +557,10 @@ class PrioritizedReplayBuffer(LAP):
             size=batch_size
         )
 
-        self.sampled_indices = np.searchsorted(probabilities, random_points)
-        return self.sampled_indices
+        self.priority.sampled_indices = np.searchsorted(
+            probabilities, random_points
+        )
+        return self.priority.sampled_indices
 
     def sample_batch(
         self, batch_size: int, rng: np.random.Generator, beta: float = 0.4
